@@ -553,6 +553,7 @@ func C17(ctx *core.Ctx, r *core.Report) {
 	c17ReflectCompare(ctx, r)
 	c17KeyMatchConjunction(ctx, r)
 	c17CompareSignOnly(ctx, r)
+	noValueTextEquality(ctx, r)
 }
 
 // c17TupleBound: in val.CompareVals every index into the second tuple must be
